@@ -40,6 +40,8 @@ pub enum ChanFault {
     FreshField(usize),
     /// field i replaced by zero scalar / identity point
     NeutralField(usize),
+    /// evaluation slot j (0..15) re-encoded non-canonically as value + r
+    EvalPlusModulus(usize),
     PiReplace(usize, Sc),
     PiAddOne(usize),
     PiSubOne(usize),
@@ -67,6 +69,7 @@ impl ChanFault {
             ChanFault::SwapField(..) => "chan.swap_field",
             ChanFault::FreshField(_) => "chan.fresh_field",
             ChanFault::NeutralField(_) => "chan.neutral_field",
+            ChanFault::EvalPlusModulus(_) => "chan.eval_plus_modulus",
             ChanFault::PiReplace(..) => "chan.pi_replace",
             ChanFault::PiAddOne(_) => "chan.pi_plus_one",
             ChanFault::PiSubOne(_) => "chan.pi_minus_one",
@@ -181,6 +184,22 @@ pub fn apply(msg: &Msg, fault: &ChanFault, other: Option<&Msg>, rng: &mut Rng) -
                 }
             }
         }
+        ChanFault::EvalPlusModulus(j) => {
+            if m.proof.len() == PROOF_SIZE {
+                // r, little-endian
+                const R_LE: [u8; 32] = [
+                    0x01, 0x00, 0x00, 0x00, 0xff, 0xff, 0xff, 0xff, 0xfe, 0x5b, 0xfe, 0xff, 0x02, 0xa4, 0xbd, 0x53, 0x05, 0xd8, 0xa1, 0x09, 0x08, 0xd8,
+                    0x39, 0x33, 0x48, 0x7d, 0x9d, 0x29, 0x53, 0xa7, 0xed, 0x73,
+                ];
+                let r = field_range(N_COMMS + (*j % N_EVALS));
+                let mut carry = 0u16;
+                for (k, b) in m.proof[r].iter_mut().enumerate() {
+                    let v = *b as u16 + R_LE[k] as u16 + carry;
+                    *b = v as u8;
+                    carry = v >> 8;
+                }
+            }
+        }
         ChanFault::PiReplace(i, v) => {
             if !m.pi.is_empty() {
                 let i = *i % m.pi.len();
@@ -238,7 +257,8 @@ pub fn apply(msg: &Msg, fault: &ChanFault, other: Option<&Msg>, rng: &mut Rng) -
 
 /// A random proof-side fault.
 pub fn random_proof_fault(rng: &mut Rng) -> ChanFault {
-    match rng.below(12) {
+    match rng.below(13) {
+        12 => ChanFault::EvalPlusModulus(rng.usize(N_EVALS)),
         0 | 1 | 2 => ChanFault::BitFlip(rng.usize(PROOF_SIZE * 8)),
         3 => ChanFault::MultiBitFlip((0..2 + rng.usize(3)).map(|_| rng.usize(PROOF_SIZE * 8)).collect()),
         4 => ChanFault::Truncate(rng.usize(PROOF_SIZE)),
